@@ -2,6 +2,7 @@ import Driver.Util
 import Driver.C14
 import Driver.Crypto
 import Driver.Gss
+import Driver.Pac
 
 open Driver
 
@@ -14,6 +15,7 @@ def dispatch (line : String) : String :=
       if op.startsWith "kt." then C14.handle op args
       else if op.startsWith "cr." then Crypto.handle op args
       else if op.startsWith "gss." then Gss.handle op args
+      else if op.startsWith "pac." then Pac.handle op args
       else none
     match r with
     | some s => s
